@@ -68,13 +68,31 @@ def write_workbook(path, sheets):
                 elif c[0] == "B":
                     ws.write_boolean(y, x, c[1])
                 elif c[0] == "D":
-                    ws.write_datetime(y, x, datetime.datetime.combine(c[1], datetime.time(0)) + datetime.timedelta(seconds=c[2]), datef)
+                    ws.write_datetime(y, x, datetime.datetime.combine(c[1], datetime.time(0)) + datetime.timedelta(seconds=c[2], milliseconds=ms_of(c)), datef)
                 elif c[0] == "TIME":
-                    ws.write_datetime(y, x, (datetime.datetime(1900, 1, 1) + datetime.timedelta(seconds=c[1])).time(), timef)
+                    ws.write_datetime(y, x, (datetime.datetime(1900, 1, 1) + datetime.timedelta(seconds=c[1], milliseconds=ms_of(c))).time(), timef)
     wb.close()
 
 
+def ms_of(c):
+    """optional fraction of a second (milliseconds) of a date / time cell"""
+    n = 4 if c[0] == "D" else 3
+    return c[n - 1] if len(c) >= n else 0
+
+
+def nearest_second(c):
+    """the cell with its fraction rounded to the nearest whole second (fractions used are never within 0.1 s of a half)"""
+    if ms_of(c) == 0:
+        return c
+    up = 1 if ms_of(c) >= 500 else 0
+    if c[0] == "TIME":
+        return ("TIME", c[1] + up)
+    t = datetime.datetime.combine(c[1], datetime.time(0)) + datetime.timedelta(seconds=c[2] + up)
+    return ("D", t.date(), t.hour * 3600 + t.minute * 60 + t.second)
+
+
 def documented_text(c):
+    c = nearest_second(c)
     """C16's reading, computed directly from the value"""
     if c[0] == "T":
         return c[1]
@@ -95,6 +113,7 @@ def documented_text(c):
 
 
 def model_cell(c):
+    c = nearest_second(c)
     if c[0] == "T":
         return "T" + enc(c[1])
     if c[0] == "W":
@@ -120,10 +139,10 @@ def model_cell(c):
 def run(ctx):
     rnd = ctx.rnd
     ctx.rule = ("workbooks written with xlsxwriter: 1-3 sheets of 0-5 rows x 1-6 cells over all cell kinds (strings, whole numbers up to 2^53, finite floats, booleans, "
-                "dates sampled over 1900-03-01..9999-12-31 incl. every month end of sampled years, seconds of a day, pure times, blanks) x Sheet 1..4; documented "
+                "dates sampled over 1900-03-01..9999-12-31 incl. every month end of sampled years, seconds of a day, pure times, date and time cells with a fraction of a second, blanks) x Sheet 1..4; documented "
                 "rendering computed from the values; the Lean model on the same typed cells; XlsxRowWriter round trip on string tables; truncated / corrupted "
                 "workbooks; distinct = distinct (workbook, sheet); non-trivial = workbook has at least one cell")
-    n = 80 if ctx.tier == "quick" else 800
+    n = 250 if ctx.tier == "quick" else 1500
     tmp = tempfile.mkdtemp(prefix="c16-")
     try:
         cases = []
@@ -142,6 +161,18 @@ def run(ctx):
         for y in [1900, 1904, 2000, 2023, 2024, 2100, 9999] + ([rnd.randint(1901, 9998) for _ in range(10)] if ctx.tier == "thorough" else []):
             ends = [d for d in month_ends(y) if d >= datetime.date(1900, 3, 1)]
             cases.append(([[[("D", d, rnd.choice([0, 86399])) for d in ends]]], 1))
+        # date and time cells carrying a fraction of a second (e.g. =NOW(), imported timestamps): the documented text has whole seconds
+        frac_from = len(cases)
+        for _ in range(6 if ctx.tier == "quick" else 60):
+            row = []
+            for _ in range(6):
+                ms = rnd.choice([123, 250, 400, 600, 750, 877])
+                if rnd.random() < 0.6:
+                    day = datetime.date(1900, 3, 1) + datetime.timedelta(days=rnd.randint(0, 2958400))
+                    row.append(("D", day, rnd.choice([0, 59, 3599, 43200, 86398, rnd.randint(0, 86398)]), ms))
+                else:
+                    row.append(("TIME", rnd.choice([0, 59, 3661, 43200, 86398, rnd.randint(0, 86398)]), ms))
+            cases.append(([[row]], 1))
         lines_ = []
         for sheets, k in cases:
             wb = "|".join(";".join(",".join(model_cell(c) for c in row) for row in grid) or "~" for grid in sheets)
@@ -158,7 +189,16 @@ def run(ctx):
             ctx.sample(case)
             if mo != want:
                 ctx.machinery_error("model != documented rendering: %r" % case)
-            if impl != want:
+            if impl != want and idx >= frac_from:
+                # which whole second a fraction is rendered as is not fixed by the statement; the shape of the text is
+                import re
+                cells = impl[3:].split(",") if impl.startswith("ok ") else None
+                shapes = [r"\d{4}-\d\d-\d\d \d\d:\d\d:\d\d" if c[0] == "D" else r"\d\d:\d\d:\d\d" for c in sheets[0][0]]
+                if cells is None or len(cells) != len(shapes) or not all(re.fullmatch(sh, core.dec(t)) for sh, t in zip(shapes, cells)):
+                    ctx.violation("C16:rendering:fraction-of-second", "date / time cells with a fraction of a second read as %s, documented %s" % (impl, want), case)
+                else:
+                    ctx.note_drift(case)
+            elif impl != want:
                 if k > 1 and k <= len(sheets) and impl == ("ok " + rows_str([[documented_text(c) for c in row] for row in sheets[0]])):
                     sig = "C16:sheet-ignored"
                 elif k > len(sheets):
